@@ -506,7 +506,12 @@ class Interp:
             else:
                 raise PyRaise(TypeError(f"{fn.name}() missing required argument '{prm.arg}'"))
         extra = args[len(params):]
-        if a.vararg:
+        star = kwargs.pop("__star__", None)      # contract setups: a symbolic tuple for *args (any number of arguments)
+        if star is not None:
+            if not a.vararg or extra:
+                raise Unsupported("symbolic * argument passed to a function without *args / after explicit extra arguments")
+            env.vars[a.vararg.arg] = star
+        elif a.vararg:
             env.vars[a.vararg.arg] = tuple(extra)
         elif extra:
             raise PyRaise(TypeError(f"{fn.name}() takes {len(params)} positional arguments but {len(args)} were given"))
